@@ -94,7 +94,7 @@ pub fn run(f: &[&str]) -> String {
                 let r = e.eval_vec(v.clone());
                 // v.clone() above clones every variable once
                 let clones = VAR_CLONES.with(|c| c.get()) - v.len();
-                out.push_str(&format!("\tcons_nf={}", res_nf(&r, &t)));
+                out.push_str(&format!("\tcons_nf={}\tclones={}", res_nf(&r, &t), clones));
                 out.push_str(&format!("\tcons={}", match r { Ok(s) => format!("{}/{}", s, clones), Err(_) => "E".into() }));
                 out.push_str(&format!("\tbr={}\tur={}", strs(&e.binary_reprs()), strs(&e.unary_reprs())));
             }
